@@ -3,6 +3,12 @@ import AllfedModel.Model.Certificate
 import AllfedModel.Proofs.Completion
 import AllfedModel.Model.AllocSpec
 import AllfedModel.Proofs.Round2
+import AllfedModel.Model.Validators
+import AllfedModel.Proofs.Validators
+import AllfedModel.Props.C01
+import AllfedModel.Props.C03
+import AllfedModel.Props.C04
+import AllfedModel.Props.C18
 /-!
 # C16 — every country completes under every documented preset
 
@@ -90,5 +96,271 @@ example : ∃ (i : Inp ℚ) (x₁ : Var → ℚ), WellFormed i ∧
     Feasible (buildLP i .toHumans) x₁ ∧ PinsWithin i x₁ ∧ i.addSeaweed = true :=
   ⟨Proofs.Round2.swInst, Proofs.Round2.swX, Proofs.Round2.swInst_wellFormed,
     Proofs.Round2.swInst_ceilings, Proofs.Round2.swX_feasible, Proofs.Round2.swInst_pins, rfl⟩
+
+/-! ## the built-in validators (`validate_results.py`) are implied by C01 / C03 / C04 / C18 for exact solutions
+
+`Model/Validators.lean` is the executable model of class `Validator` (tied to the real code on every run by
+`harness/lib/validators.py`).  For every numeric validator: either a theorem "the series come from an exactly
+feasible point of `buildLP` / from the hand-off helpers ⇒ the validator passes for every tolerance ε ≥ 0", citing
+the property theorem it rests on, or — where the validator tests a heuristic relation between rounds, or uses its
+tolerance in a way an exact solution can violate — a concrete `…_counterexample` over ℚ.  `Outcome.ok` = the call
+does not raise; `.pass` = the test ran and held; `.skipped` = early return; `.warned` = only printed.
+
+Fat and protein are switched off (`⟨false, false⟩`), as in `buildLP` and in every documented option set. -/
+
+section Validators
+open Allfed.Validators Allfed.Proofs.Validators Allfed.PhysSpec Allfed.Report Allfed.Handoff
+
+/-- `ensure_all_greater_than_or_equal_to_zero`: the reported percent series are the allocation (non-negative: the
+    `nonneg` clause of `C01.feasible_is_physical`, here directly `Feasible.2`) and the non-negative inputs times positive
+    constants (`C04.contribution_linear`), and the "new stored" half of the crop split is never negative.
+    Holds for both kinds of round and for all three tolerances the code uses (`1e-6`, rounding to 6 decimals, none). -/
+theorem validator_all_ge_zero_of_feasible (i : Inp K) (kind : Kind) (x : Var → K) (produced : Nat → K)
+    (h : Feasible (buildLP i kind) x) (hkm : 0 < i.kcalsMonthly) (hb : 0 < i.billionKcalsNeeded)
+    (hgh : ∀ m, m < i.nmonths → 0 ≤ at' i.greenhouse m) (hfish : ∀ m, m < i.nmonths → 0 ≤ at' i.fish m)
+    (hmilk : ∀ m, m < i.nmonths → 0 ≤ at' i.milk m) :
+    ensureAllGe0 ⟨false, false⟩ (reportedFoods i x produced) = .pass :=
+  ensureAllGe0_of_point i x produced h.2 hkm hb hgh hfish hmilk
+
+/-- `ensure_never_nan`: in exact arithmetic there is nothing to find — for ALL series.  What a total order cannot express
+    is NaN itself: NaN only arises from IEEE operations (`0/0`, `inf − inf`) the exact model does not have; the divisions
+    of the reporting chain are by `kcals_monthly`, `billion_kcals_needed`, `population`, guarded as hypotheses
+    wherever a theorem uses them.  At `Float` the model's test `¬(x ≤ x)` is exactly `isnan`. -/
+theorem validator_never_nan (r : Foods K) : ensureNeverNan r = .pass := ensureNeverNan_pass r
+
+/-- `ensure_zero_kcals_have_zero_fat_and_protein`: with fat and protein off it tests nothing … -/
+theorem validator_zero_kcals_excluded (r : Foods K) : ensureZeroKcals ⟨false, false⟩ r = .pass :=
+  ensureZeroKcals_of_excluded r
+
+/-- … and with them on it holds for every series whose three nutrients are one allocation times three constants
+    (`C04.contribution_linear`: that is how every reported series is made), kcals constant non-zero -/
+theorem validator_zero_kcals_linear (fl : Flags) (a : List K) (ck cf cp : K) (hck : ck ≠ 0) :
+    foodZeroKcals fl ⟨a.map (· * ck), a.map (· * cf), a.map (· * cp)⟩ = true :=
+  foodZeroKcals_of_linear fl a ck cf cp hck
+
+/-- `ensure_optimizer_returns_same_as_sum_nutrients` (headline vs the first solve's optimum, tolerance: half a
+    percentage point after `round(·, 0)`): implied by `C04.headline_ge_floor` and `C04.headline_le_optimum`
+    whenever the optimum is at most 10 000 % — the floor `0.99995·z` is relative, the validator's tolerance absolute. -/
+theorem validator_optimizer_same_as_sum_of_feasible (i : Inp K) (x : Var → K) (zopt : K) (code : String)
+    (hopt : ∀ x', Feasible (buildLP i .toHumans) x' → x' .objective ≤ zopt)
+    (h : Feasible (buildLP i .toHumans ++ floorRows i .toHumans zopt) x)
+    (hkm : i.kcalsMonthly ≠ 0) (hN : 0 < i.nmonths) (hz : 0 ≤ zopt) (hz4 : zopt ≤ 10000) :
+    optimizerSameAsSum zopt (headline i x) code = .pass :=
+  optimizerSameAsSum_of_floor zopt (headline i x) code hz hz4
+    (C04.headline_ge_floor i x zopt h hkm hN)
+    (C04.headline_le_optimum i x zopt hopt (C01.extra_rows_preserve _ _ x h) hkm hN)
+
+/-- NOT implied beyond 10 000 %: optimum 20 000 %, headline 19 999 % — inside C04's floor, one whole point apart -/
+theorem validator_optimizer_same_as_sum_counterexample :
+    (20000 : ℚ) * 0.99995 ≤ 19999 ∧ (19999 : ℚ) ≤ 20000 ∧ optimizerSameAsSum (20000 : ℚ) 19999 "USA" = .raised :=
+  optimizerSameAsSum_counterexample
+
+/-- the same on a programme: two months, 20 000 of stored food that need not be eaten (D14), optimum 20 000 %; a point that
+    satisfies the rows AND the `0.99995·z` floors of the later solves, headline 19 999 % — every hypothesis of
+    `validator_optimizer_same_as_sum_of_feasible` except `zopt ≤ 10000`, and the validator raises -/
+theorem validator_optimizer_same_as_sum_feasible_counterexample :
+    (∀ x', Feasible (buildLP bigI .toHumans) x' → x' .objective ≤ 20000) ∧
+      Feasible (buildLP bigI .toHumans ++ floorRows bigI .toHumans 20000) bigX ∧ bigI.kcalsMonthly ≠ 0 ∧ 0 < bigI.nmonths ∧
+      headline bigI bigX = 19999 ∧ optimizerSameAsSum (20000 : ℚ) (headline bigI bigX) "USA" = .raised :=
+  optimizerSameAsSum_feasible_counterexample
+
+/-- `check_constraints_satisfied` re-evaluates every row at the reported values; in terms of the LP model it says:
+    every residual of `PhysSpec.rowExcess` (the evaluator of `C01.rowExcess_iff`) is `≤ tol`, for equalities `< tol` -/
+theorem validator_check_row_iff_rowExcess (tol : K) (x : Var → K) (r : Row K) :
+    checkRow tol x r = true ↔
+      (r.rel = .eq → ∀ e ∈ rowExcess x r, e.value < tol) ∧ (r.rel ≠ .eq → ∀ e ∈ rowExcess x r, e.value ≤ tol) :=
+  checkRow_iff_rowExcess tol x r
+
+/-- … so every exactly feasible point passes for every POSITIVE tolerance (the code's is the literal `1`), whatever
+    rows are skipped; in particular every feasible point of `buildLP i kind ++ floorRows i kind z` -/
+theorem validator_check_constraints_of_feasible (tol : K) (htol : 0 < tol) (skip : List String) (rows : List (Row K))
+    (x : Var → K) (hne : rows ≠ []) (h : Feasible rows x) : checkConstraints tol skip rows x = some .pass :=
+  checkConstraints_of_feasible tol htol skip rows x hne h
+
+/-- NOT for tolerance 0: the equality test is strict -/
+theorem validator_check_constraints_zero_tolerance_counterexample :
+    Feasible [eqRow] eqX ∧ checkConstraints (0 : ℚ) [] [eqRow] eqX = some .raised ∧
+      checkConstraints (1 : ℚ) [] [eqRow] eqX = some .pass :=
+  checkConstraints_zero_tolerance_counterexample
+
+/-- `assert_population_not_increasing` (not called by the pipeline): a sufficient condition — herds that never grow and
+    are never negative pass for every positive ε … -/
+theorem validator_population_of_antitone (eps : K) (heps : 0 < eps) (dict : List (String × List K))
+    (h : ∀ kv ∈ dict, strContains kv.1 "population" = true → (∀ v ∈ kv.2, 0 ≤ v) ∧ kv.2.IsChain (fun a b => b ≤ a)) :
+    populationNotIncreasing eps dict = .pass :=
+  populationNotIncreasing_of_antitone eps heps dict h
+
+/-- … but NOT implied by anything proved about the herd model (C05–C07 prove the ledger, not a growth bound): 11 % growth fails -/
+theorem validator_population_counterexample :
+    populationNotIncreasing (1/10 : ℚ) [("beef_population", [100, 111])] = .raised ∧
+      populationNotIncreasing (1/10 : ℚ) [("beef_population", [100, 110])] = .pass :=
+  population_counterexample
+
+/-- `assert_round2_meat_and_population_greater_than_round1` (not called by the pipeline): sufficient condition … -/
+theorem validator_round2_greater_of_ge (eps small : K) (heps : 0 ≤ eps) (d1 d2 : List (String × List K))
+    (h : ∀ kv ∈ d1, ∃ s2, d2.lookup kv.1 = some s2 ∧ 0 ≤ lsum kv.2 ∧ lsum kv.2 ≤ lsum s2) :
+    round2GreaterThanRound1 eps small d1 d2 = some .pass :=
+  round2GreaterThanRound1_of_ge eps small heps d1 d2 h
+
+/-- … NOT implied: a heuristic relation between two herd simulations (2 % fewer animals with feed fails; milk is exempt;
+    a key missing in round 2 is a KeyError) -/
+theorem validator_round2_greater_counterexample :
+    round2GreaterThanRound1 (1/100 : ℚ) 100 [("beef_population", [500, 500])] [("beef_population", [490, 490])] = some .raised ∧
+      round2GreaterThanRound1 (1/100 : ℚ) 100 [("milk_produced", [500, 500])] [("milk_produced", [1, 1])] = some .pass ∧
+      round2GreaterThanRound1 (1/100 : ℚ) 100 [("beef_population", [500, 500])] [] = none :=
+  round2GreaterThanRound1_counterexample
+
+/-- `assert_meat_dairy_doesnt_decrease_round_2` is called with the round-2 slaughter series AFTER the re-timing of
+    C18: `C18.redistribute_total` (total preserved) and `C18.redistribute_none_iff` (a result exists only if round 2
+    has at least round 1's total) imply it for every ε ≥ 0 -/
+theorem validator_meat_dairy_of_redistribute (eps : K) (heps : 0 ≤ eps) (r1 r2 out milk1 milk2 : List K)
+    (hl : r1.length = r2.length) (h : redistribute r1 r2 = some out) (h0 : 0 ≤ r1.sum + milk1.sum) :
+    meatDairyNotDecreasing eps r1 out milk1 milk2 = .pass :=
+  meatDairy_of_redistribute eps heps r1 r2 out milk1 milk2 hl h h0
+
+/-- `verify_minimum_food_consumption_sum_round2` on the output of the hand-off: `C18.fillMonth_sum` (every month adds
+    up to `min(cap, eaten)`) and `C18.dailyMax_eq_min` (`cap = KCALS_DAILY·min(p1, T)/100`) imply it as long as
+    `min(p1, T) ≤ 100` -/
+theorem validator_min_consumption_sum_of_handoff (fl : Flags) (eps kd p1 T : K) (heps : 0 ≤ eps) (hkd : 0 ≤ kd) (hp : 0 ≤ p1)
+    (hT : 0 ≤ T) (hT100 : min p1 T ≤ 100) (avail : List (List K)) (hf : ∀ row ∈ avail, ∀ f ∈ row, 0 ≤ f) :
+    (minConsumptionSum fl eps kd (minNeeds (dailyMax kd p1 T) avail)).ok = true :=
+  minConsumptionSum_of_handoff fl eps kd p1 T heps hkd hp hT hT100 avail hf
+
+/-- NOT beyond: a threshold of 120 % (round 1 at 150 %) makes the hand-off's exact output fail its own check -/
+theorem validator_min_consumption_sum_counterexample :
+    minConsumptionSum ⟨false, false⟩ (1/10000 : ℚ) 2100 (minNeeds (dailyMax 2100 150 120) [[3150, 0, 0, 0, 0, 0, 0, 0, 0]]) = .raised :=
+  minConsumptionSum_threshold_above_100_counterexample
+
+/-- `verify_food_usage_priorities_round2` on the output of the hand-off: the priority order of
+    `C18.fillMonth_priority` and the bound of `C18.fillMonth_le` — a food is drawn on only when every earlier one is
+    used to 100 %, none beyond 100 % — for every ε ≥ 0 and every cap ≥ 0 -/
+theorem validator_usage_priorities_of_handoff (fl : Flags) (eps cap : K) (heps : 0 ≤ eps) (hcap : 0 ≤ cap) (avail : List (List K))
+    (hf : ∀ row ∈ avail, ∀ f ∈ row, 0 ≤ f) :
+    (usagePriorities fl eps (avail.map fun row => (fillMonth cap row).zip row)).ok = true :=
+  usagePriorities_of_handoff fl eps cap heps hcap avail hf
+
+/-- `assert_feed_used_below_feed_demand` / `assert_biofuels_used_below_biofuels_demand` after a human-maximising round
+    (rounds 1 and 3): `C03.human_round_within_schedule` — what is drawn equals the charge, the charge is within demand -/
+theorem validator_used_below_demand_human_round (i : Inp K) (x : Var → K) (fd bd : List K) (eps : K) (heps : 0 ≤ eps)
+    (h : Feasible (buildLP i .toHumans) x) (hany : anyFeedVar i = true)
+    (hf : ∀ m, at' i.feed m ≤ at' fd m) (hb : ∀ m, at' i.biofuel m ≤ at' bd m)
+    (hbk : 0 < i.billionKcalsNeeded) (hk : 0 ≤ i.seaweedKcals) :
+    usedBelowDemand ⟨false, false⟩ eps (100 / i.billionKcalsNeeded) (monthly i.nmonths (at' fd)) (feedSources i x) = some .pass ∧
+    usedBelowDemand ⟨false, false⟩ eps (100 / i.billionKcalsNeeded) (monthly i.nmonths (at' bd)) (biofuelSources i x) = some .pass :=
+  ⟨feedBelowDemand_of_total_le i x eps heps _ hbk h.2 hk
+      (fun m hm => (C03.human_round_within_schedule i x fd bd h hany hf hb m hm).1),
+   biofuelBelowDemand_of_total_le i x eps heps _ hbk h.2 hk
+      (fun m hm => (C03.human_round_within_schedule i x fd bd h hany hf hb m hm).2)⟩
+
+/-- … and after the feed-maximising round (round 2): `C03.feed_round_within_schedule` — within the ceilings, the ceilings within demand -/
+theorem validator_used_below_demand_feed_round (i : Inp K) (x : Var → K) (fd bd : List K) (eps : K) (heps : 0 ≤ eps)
+    (h : Feasible (buildLP i .toAnimals) x) (hany : anyFeedVar i = true)
+    (hf : ∀ m, at' i.maxFeed m ≤ at' fd m) (hb : ∀ m, at' i.maxBiofuel m ≤ at' bd m)
+    (hbk : 0 < i.billionKcalsNeeded) (hk : 0 ≤ i.seaweedKcals) :
+    usedBelowDemand ⟨false, false⟩ eps (100 / i.billionKcalsNeeded) (monthly i.nmonths (at' fd)) (feedSources i x) = some .pass ∧
+    usedBelowDemand ⟨false, false⟩ eps (100 / i.billionKcalsNeeded) (monthly i.nmonths (at' bd)) (biofuelSources i x) = some .pass :=
+  ⟨feedBelowDemand_of_total_le i x eps heps _ hbk h.2 hk
+      (fun m hm => (C03.feed_round_within_schedule i x fd bd h hany hf hb m hm).1),
+   biofuelBelowDemand_of_total_le i x eps heps _ hbk h.2 hk
+      (fun m hm => (C03.feed_round_within_schedule i x fd bd h hany hf hb m hm).2)⟩
+
+/-- `assert_fewer_calories_round2_than_round3` (not called by the pipeline): sufficient condition on the two totals … -/
+theorem validator_fewer_calories_of_le (eps absEps : K) (heps : 0 ≤ eps) (habs : 0 ≤ absEps) (feed2 biofuel2 : List K)
+    (foods2 foods3 : List (List K))
+    (h : List.Forall₂ (fun a3 a2 => 0 ≤ a2 ∧ a2 ≤ a3) (sumSeries foods3) (sumSeries foods2)) :
+    (fewerCaloriesRound2 ⟨false, false⟩ eps absEps feed2 biofuel2 foods2 foods3).ok = true :=
+  fewerCaloriesRound2_of_le eps absEps heps habs feed2 biofuel2 foods2 foods3 h
+
+/-- `assert_feed_used_round3_below_feed_used_round2` (not called by the pipeline): sufficient condition, and ε must be
+    POSITIVE (strict comparison with an absolute ε) … -/
+theorem validator_feed_round3_below_round2_of_le (eps : K) (heps : 0 < eps) (s2 s3 : List (List K)) (h3 : s3 ≠ [])
+    (h : List.Forall₂ (fun a2 a3 => a3 ≤ a2) (sumSeries s2) (sumSeries s3)) :
+    ∃ o, feedRound3BelowRound2 ⟨false, false⟩ eps s2 s3 = some o ∧ o.ok = true :=
+  feedRound3BelowRound2_of_le eps heps s2 s3 h3 h
+
+theorem validator_feed_round3_below_round2_zero_eps_counterexample :
+    feedRound3BelowRound2 ⟨false, false⟩ (0 : ℚ) [[1, 2]] [[1, 2]] = some .raised ∧
+      feedRound3BelowRound2 ⟨false, false⟩ (1/10000 : ℚ) [[1, 2]] [[1, 2]] = some .pass :=
+  feedRound3BelowRound2_zero_eps_counterexample
+
+/-- `assert_round3_percent_fed_not_lower_than_round1` and `assert_feed_and_biofuel_used_is_zero_if_humans_are_starving`
+    can never make a run fail: their tests end in a `print` (the second one raises only when fat or protein is required) -/
+theorem validator_round3_not_lower_never_raises (T p1 p3 eps : K) : (round3NotLowerThanRound1 T p1 p3 eps).ok = true :=
+  round3NotLower_ok T p1 p3 eps
+
+theorem validator_feed_zero_if_starving_never_raises (pf : K) (b f : List (List K)) :
+    (feedZeroIfStarving ⟨false, false⟩ pf b f).ok = true :=
+  feedZeroIfStarving_ok pf b f
+
+/-- … and the four relations BETWEEN rounds are NOT implied by C01/C03/C04/C18 (they are about the optimal solutions of
+    three coupled programmes; C03 monitors them per run and D15 is an open finding of that kind).  One instance — crops only,
+    two months, need 100: exactly feasible points of the three rounds' programmes, round 2 optimal at its ceilings
+    (feed 50 of 50 a month), round 3 charged 250 a month within a demand of 250 (so `assert_feed_used_below_feed_demand`
+    passes) and solved to its optimum 50 % — on which
+    `assert_fewer_calories_round2_than_round3` raises (1050 < 2100·0.9 − 0.1 kcal a day),
+    `assert_feed_used_round3_below_feed_used_round2` raises (250 > 50),
+    `assert_round3_percent_fed_not_lower_than_round1` prints (round 1: 300 %, round 3: 50 % < 99.9 %), and
+    `assert_feed_and_biofuel_used_is_zero_if_humans_are_starving` prints. -/
+theorem validator_round_relations_counterexample :
+    (Feasible (buildLP cexI1 .toHumans) cexX1 ∧ Feasible (buildLP cexI2 .toAnimals) cexX2 ∧ Feasible (buildLP cexI3 .toHumans) cexX3) ∧
+    (∀ x, Feasible (buildLP cexI3 .toHumans) x → x .objective ≤ 50) ∧ headline cexI3 cexX3 = 50 ∧ headline cexI1 cexX1 = 300 ∧
+    usedBelowDemand ⟨false, false⟩ (1/10000 : ℚ) (100 / cexI3.billionKcalsNeeded) [250, 250] (feedSources cexI3 cexX3) = some .pass ∧
+    fewerCaloriesRound2 ⟨false, false⟩ (1/10 : ℚ) (1/10) (feedKeq cexI2 2100 cexX2) (biofuelKeq cexI2 2100 cexX2)
+        (round2Series cexI2 2100 cexX2) (round3Series cexI3 2100 cexX3) = .raised ∧
+    feedRound3BelowRound2 ⟨false, false⟩ (1/10000 : ℚ) (feedSources cexI2 cexX2) (feedSources cexI3 cexX3) = some .raised ∧
+    round3NotLowerThanRound1 (100 : ℚ) (headline cexI1 cexX1) (headline cexI3 cexX3) 1 = .warned ∧
+    feedZeroIfStarving ⟨false, false⟩ (headline cexI3 cexX3) (biofuelSources cexI3 cexX3) (feedSources cexI3 cexX3) = .warned :=
+  ⟨cex_feasible, cex_round3_optimal, cex_reports.2.1, cex_reports.1, cex_round3_within_demand,
+    cex_round_relations_fail.1, cex_round_relations_fail.2.1, cex_round_relations_fail.2.2.1, cex_round_relations_fail.2.2.2⟩
+
+/-! ### non-vacuity of the implications above -/
+
+/-- `validator_all_ge_zero_of_feasible`, `validator_used_below_demand_human_round`: the round-3 instance of the
+    counter-example satisfies every hypothesis (demand 250 a month) -/
+example : Feasible (buildLP cexI3 .toHumans) cexX3 ∧ 0 < cexI3.kcalsMonthly ∧ 0 < cexI3.billionKcalsNeeded ∧
+    anyFeedVar cexI3 = true ∧ (∀ m, at' cexI3.feed m ≤ at' [250, 250] m) ∧ 0 ≤ cexI3.seaweedKcals ∧
+    ensureAllGe0 ⟨false, false⟩ (reportedFoods cexI3 cexX3 (at' cexI3.cropProd)) = .pass :=
+  ⟨cex_feasible.2.2, by decide +kernel, by decide +kernel, rfl,
+    fun m => by
+      match m with
+      | 0 => decide +kernel
+      | 1 => decide +kernel
+      | m + 2 => exact le_refl _,
+    by decide +kernel, by decide +kernel⟩
+
+/-- `validator_used_below_demand_feed_round`: round 2 of the same instance, ceilings 50 within a demand of 250 -/
+example : Feasible (buildLP cexI2 .toAnimals) cexX2 ∧ anyFeedVar cexI2 = true ∧
+    usedBelowDemand ⟨false, false⟩ (1/10000 : ℚ) (100 / cexI2.billionKcalsNeeded) [250, 250] (feedSources cexI2 cexX2) = some .pass :=
+  ⟨cex_feasible.2.1, rfl, by decide +kernel⟩
+
+/-- `validator_optimizer_same_as_sum_of_feasible`: round 3 of the instance with its optimum 50 % and the floors of the later solves -/
+example : (∀ x', Feasible (buildLP cexI3 .toHumans) x' → x' .objective ≤ 50) ∧
+    Feasible (buildLP cexI3 .toHumans ++ floorRows cexI3 .toHumans 50) cexX3 ∧ cexI3.kcalsMonthly ≠ 0 ∧ 0 < cexI3.nmonths ∧
+    optimizerSameAsSum (50 : ℚ) (headline cexI3 cexX3) "ARG" = .pass :=
+  ⟨cex_round3_optimal,
+    ⟨Proofs.LP.rows_hold_of_all _ _ (by decide +kernel), cexX3_nonneg⟩, by decide +kernel, by decide +kernel, by decide +kernel⟩
+
+/-- `validator_check_constraints_of_feasible` on the same programme with the code's tolerance 1, objective rows skipped -/
+example : checkConstraints (1 : ℚ) ["Kcals_Fed_Month_0_Objective_Constraint"] (buildLP cexI3 .toHumans) cexX3 = some .pass := by
+  decide +kernel
+
+/-- `validator_meat_dairy_of_redistribute`, `validator_min_consumption_sum_of_handoff`, `validator_usage_priorities_of_handoff`:
+    the concrete hand-offs of the C18 examples -/
+example : redistribute ([3, 1, 0] : List ℚ) [1, 1, 4] = some [3, 1, 2] ∧
+    meatDairyNotDecreasing (1/100 : ℚ) [3, 1, 0] [3, 1, 2] [5, 5, 5] [0, 0, 0] = .pass := by decide +kernel
+
+example : minConsumptionSum ⟨false, false⟩ (1/10000 : ℚ) 2100 (minNeeds (dailyMax 2100 150 100) [[900, 0, 300, 0, 1500, 0, 450, 0, 0]]) = .pass ∧
+    usagePriorities ⟨false, false⟩ (1/10000 : ℚ) ([[900, 0, 300, 0, 1500, 0, 450, 0, 0]].map fun row => (fillMonth (2100 : ℚ) row).zip row) = .pass := by
+  decide +kernel
+
+/-- `validator_population_of_antitone`, `validator_round2_greater_of_ge`, `validator_fewer_calories_of_le`,
+    `validator_feed_round3_below_round2_of_le`: concrete passing inputs -/
+example : populationNotIncreasing (1/10 : ℚ) [("pig_population", [50, 40, 40, 0]), ("pig_meat", [1, 9])] = .pass ∧
+    round2GreaterThanRound1 (1/100 : ℚ) 100 [("pig_population", [50, 40])] [("pig_population", [60, 45])] = some .pass ∧
+    fewerCaloriesRound2 ⟨false, false⟩ (1/10 : ℚ) (1/10) [5] [0] [[1000], [500]] [[1200], [400]] = .pass ∧
+    feedRound3BelowRound2 ⟨false, false⟩ (1/10000 : ℚ) [[3], [2]] [[2], [2]] = some .pass := by
+  decide +kernel
+
+end Validators
 
 end Allfed.C16
